@@ -174,7 +174,10 @@ def result_case(draw, tier="quick"):
     if op == "agg":
         keys = st.one_of(st.integers(0, 2), st.none())
         return {"op": op, "k": draw(st.lists(keys, min_size=n, max_size=n)),
-                "v": draw(V.column(kind="float", min_size=n, max_size=n, elements=st.one_of(V.small_ints, V.small_floats)))[1]}
+                "v": draw(st.one_of(
+                    V.column(kind="float", min_size=n, max_size=n, elements=st.one_of(V.small_ints, V.small_floats)),
+                    V.column(kind="complex", min_size=n, max_size=n), V.column(kind="fraction", min_size=n, max_size=n),
+                    V.column(kind="decimal", min_size=n, max_size=n), V.column(kind="bool", min_size=n, max_size=n)))[1]}
     cells = st.sampled_from(["1", "2", "1.5", "x", "", " ", "1e3", "-4", "y z"])
     rows = draw(st.lists(st.lists(cells, min_size=2, max_size=2), min_size=1, max_size=5))
     return {"op": op, "rows": rows}
@@ -244,10 +247,15 @@ def run_result(case, ctx):
     if op == "agg":
         T = Table({"k": case["k"], "v": case["v"]})
         for meth in ("aggregate", "window"):
-            t = getattr(T, meth)(over="k", sum_over="v", mean_over="v", min_over="v", max_over="v",
-                                 stdev_over="v", count_over="v")
-            if _check_cols(t, ctx, meth):
-                return
+            for kw in ({"sum_over": "v"}, {"mean_over": "v"}, {"min_over": "v"}, {"max_over": "v"}, {"stdev_over": "v"}, {"count_over": "v"},
+                       {"sum_over": "v", "mean_over": "v", "count_over": "v"}):
+                try:
+                    t = getattr(T, meth)(over="k", **kw)
+                except Exception:  # noqa: BLE001  (min of complex, Decimal ** 0.5, ...: Python-undefined)
+                    ctx.python_undefined()
+                    continue
+                if _check_cols(t, ctx, meth):
+                    return
         if None in case["v"] or None in case["k"]:
             ctx.nontrivial()
         return
